@@ -226,7 +226,9 @@ class P:
                 els = s._structbody('}'); s.exp('>')
                 t = StructT(els, packed=True)
             else:
-                raise SyntaxError("vector types unsupported: %r" % s.text)
+                # vector type <N x T>: handled as an array for whole-value load/store (element-wise vector arithmetic is not supported)
+                n = int(s.next()[1]); s.exp('x'); el = s.type(); s.exp('>')
+                t = ArrT(n, el)
         else:
             raise SyntaxError("type? %r in %r" % (v, s.text))
         while True:
@@ -306,10 +308,15 @@ class P:
                 t = s.type(); els.append((t, s.value(t))); s.acc(',')
             return Agg(els)
         if v == '<':
-            s.exp('{'); els = []
-            while not s.acc('}'):
+            if s.acc('{'):
+                els = []
+                while not s.acc('}'):
+                    t = s.type(); els.append((t, s.value(t))); s.acc(',')
+                s.exp('>')
+                return Agg(els)
+            els = []
+            while not s.acc('>'):
                 t = s.type(); els.append((t, s.value(t))); s.acc(',')
-            s.exp('>')
             return Agg(els)
         if k == 'meta': return Const(0)
         raise SyntaxError("value? %r %r in %r" % (k, v, s.text))
